@@ -210,12 +210,13 @@ def _sim_case(case, out):
     except Exception as e:      # noqa: BLE001
         got = type(e).__name__
     legal = legal_buffer(pdir, bufdir)
+    if not legal:
+        _inc(out, "sim_illegal_pairs")
     if got != ("ok" if legal else "ValueError"):
         _viol(out, f"simbuf:construct:{bufdir}:{ts}", f"{tag}: construction gave {got}, docs say "
               f"{'accepted' if legal else 'ValueError'} (port direction {pdir})", case)
         return
     if not legal:
-        _inc(out, "sim_illegal_pairs_rejected")
         return
     _inc(out, "sim_buffers_simulated")
     sigerr = []
@@ -638,12 +639,13 @@ def _net_case(case, out):
         got = "ok"
     except Exception as e:      # noqa: BLE001
         got = type(e).__name__
+    if not legal:
+        _inc(out, "net_illegal_pairs")
     if got != ("ok" if legal else "ValueError"):
         _viol(out, f"net:construct:{cls}:{bufdir}:{kind}:{ts}", f"{tag}: construction gave {got}, docs say "
               f"{'accepted' if legal else 'ValueError'} (port direction {pdir})", case)
         return
     if not legal:
-        _inc(out, "net_illegal_pairs_rejected")
         return
     m = Module()
     cd = None
@@ -661,12 +663,13 @@ def _net_case(case, out):
         got = "DriverConflict"
     except Exception as e:      # noqa: BLE001
         got = type(e).__name__
+    if dup:
+        _inc(out, "net_double_use_designs")
     if got != ("DriverConflict" if dup else "ok"):
         _viol(out, f"net:build:{cls}:{bufdir}:{kind}:{ts}", f"{tag}: building the netlist gave {got}, want "
               f"{'DriverConflict (a port bit is used twice)' if dup else 'a netlist'}", case)
         return
     if dup:
-        _inc(out, "net_double_use_rejected")
         return
     _inc(out, "net_netlists")
     ev = NirEval(nl)
@@ -1009,17 +1012,20 @@ def run(rep):
                 "reference": list(map(list, ref(["inv", ["sl", ["b", 0], None, None, -1]], [[3, 0b011, "io"]])[2]))})
     # ---- vacuity guards: every antecedent the invariants rely on was exercised
     need = {"algebra_rejections": "port expressions that must raise", "algebra_mixed_inversion_results": "results with a mixed inversion tuple",
-            "algebra_mixed_kind": "`+` across port classes", "sim_illegal_pairs_rejected": "illegal port/buffer direction pairs",
+            "algebra_mixed_kind": "`+` across port classes", "sim_illegal_pairs": "illegal port/buffer direction pairs",
             "sim_cases_with_inversion": "simulated buffers with a non-zero mask", "sim_zero_width_cases": "zero-width buffers",
             "sim_loopback_valuations": "bidirectional valuations where the looped-back value differs from the pad input",
-            "net_double_use_rejected": "expressions using a port bit twice", "net_netlists": "netlists built",
-            "net_rtlil_texts": "RTLIL texts interpreted", "net_illegal_pairs_rejected": "illegal pairs on real ports",
+            "net_double_use_designs": "expressions using a port bit twice", "net_netlists": "netlists built",
+            "net_rtlil_texts": "RTLIL texts interpreted", "net_illegal_pairs": "illegal pairs on real ports",
             "two_buffers_conflict": "overlapping two-buffer designs", "two_buffers_disjoint": "disjoint two-buffer designs",
             "ff_states": "FFBuffer product states", "ff_traces_validated": "BFS traces replayed from reset"}
+    # a run that already reports violations is not a pass; guards whose counters sit behind a failing step
+    # (e.g. RTLIL texts after a conversion crash) must not turn that report into a harness error
+    vac = (lambda cond, text: None) if rep.violations else rep.require
     for k, text in need.items():
-        rep.require(cov.get(k, 0) > 0, f"{text} ({k}) never exercised")
+        vac(cov.get(k, 0) > 0, f"{text} ({k}) never exercised")
     for f in ("i_edge", "o_edge", "both_clocks", "loopback", "oe_reg0", "oe_reg1", "rst_edge"):
-        rep.require(f in flags, f"FFBuffer BFS flag {f} never observed")
+        vac(f in flags, f"FFBuffer BFS flag {f} never observed")
     rep.assume("the power-on contents of the FFBuffer registers are not fixed by the statement: the model reads them off the outputs at reset")
     rep.assume("FFBuffer BFS state injection through ctx.set is validated by replaying shortest paths from reset on fresh simulators")
     rep.assume("slices that Python normalises to start>stop (x[2:1]) are outside the alphabet: core slicing rejects them with IndexError")
